@@ -141,6 +141,11 @@ func c20Sequence(r *core.Rand) []*types.Packet {
 }
 
 func c20Framing(c *core.Ctx, o *c20Obs) {
+	if c.Index%8 == 3 {
+		for i := 0; i < 20; i++ {
+			codec.CheckResend(o, c.R.Fork())
+		}
+	}
 	if c.Index%64 == 43 {
 		// (without a size check the sender allocates the claimed size: in
 		// this address-space limited child that is a crash, which counts)
